@@ -40,7 +40,8 @@ Proof.
   - (* materialise *) unfold materialise, Coh in *. destruct (sp s) eqn:E; [rewrite E; exact C|cbn; right; reflexivity].
   - (* port *) apply (host_ops_query s); [| |exact C]; unfold set_port; destruct (zs_eqb (scheme s) s_file); try reflexivity;
       destruct a; try reflexivity; destruct (is_default_port _ _); reflexivity.
-  - (* protocol *) apply (host_ops_query s); [| |exact C]; unfold set_protocol; destruct (_ && _); reflexivity.
+  - (* protocol *) apply (host_ops_query s); [| |exact C]; unfold set_protocol; destruct (_ && _); try reflexivity;
+      destruct (fix_host _ _ _); reflexivity.
   - (* host *) apply (host_ops_query s); [| |exact C]; unfold set_host; destruct (host_ok _ _); try reflexivity;
       destruct (fix_host _ _ _); reflexivity.
   - (* hostname *) apply (host_ops_query s); [| |exact C]; unfold set_hostname; destruct (existsb _ _); try reflexivity;
@@ -214,7 +215,9 @@ Proof.
     + destruct W as [Wd Wg]. destruct (is_default_port (scheme s) (num_of d)) eqn:D.
       * change (host_inv (scheme s) (clear_port (host s))). apply clear_port_inv; exact Ip.
       * change (host_inv (scheme s) (host_without_port (host s) ++ 58 :: d)). apply host_inv_with_port; assumption.
-  - (* protocol *) unfold set_protocol. destruct (_ && _); [|exact I]. change (host_inv p (drop_default_port p (host s))). apply drop_default_inv. exact (proj1 I).
+  - (* protocol *) unfold set_protocol. destruct (_ && _); [|exact I].
+    pose proof (drop_default_inv p (host s) (proj1 I)) as D.
+    destruct (fix_host lower norm_host p (drop_default_port p (host s))) as [h2|] eqn:F; cbn; [eapply fix_host_inv; eauto|exact D].
   - (* host *) unfold set_host. destruct (host_ok (scheme s) v) eqn:K; [|exact I].
     pose proof (drop_default_inv (scheme s) v (host_ok_plain _ _ K)) as D.
     destruct (fix_host lower norm_host (scheme s) (drop_default_port (scheme s) v)) as [h2|] eqn:F; cbn; [eapply fix_host_inv; eauto|exact D].
